@@ -134,6 +134,10 @@ def treeOKList (isDatatype : Str → Bool) : List Tree → Bool
   | t :: ts => treeOK isDatatype t && treeOKList isDatatype ts
 end
 
+/-- the root element of a document has no (significant) tail -/
+def rootTailBlank (e : Env) : Tree → Bool
+  | .node _ _ _ _ _ tl => (normalizeContent e tl).isNone
+
 /-! ### the generic pipeline -/
 
 /-- the value a `WildcardNode(var)` leaves for the subtree `t` -/
